@@ -49,3 +49,6 @@ pub mod time_shim {
     }
 }
 use time_shim::Duration;
+// deviation surface: more of Option's API with its real meaning
+pub assume_specification<T> [Option::<T>::or] (a: Option<T>, b: Option<T>) -> (r: Option<T>)
+    ensures r == (match a { Some(x) => Some(x), None => b });
